@@ -15,6 +15,8 @@ for P in "$@"; do
   echo
 done
 git -C /repo checkout -- . 
+# a seeded change may add files: remove what is not tracked under src/ and tests/
+git -C /repo clean -fdq src tests
 rm -rf evidence && mv work/evidence.keep evidence
 # leave the harness built against the clean tree again
 (cd /verif/harness && CARGO_NET_OFFLINE=true cargo build --release --offline >/dev/null 2>&1)
